@@ -1228,6 +1228,8 @@ def main(cmdlineargs) -> Statistics:
                 # what the path "-" means
                 args.output if args.output is not None else "-",
                 args.paired_output,
+                # The JSON report is written over whatever is at that path
+                args.json,
             ]
         )
 
